@@ -509,7 +509,11 @@ pub fn exec(op: &str, a: &[&str]) -> Option<String> {
         // watchdog: a peer that deadlocks (e.g. on its own tcp_writer mutex) must make the case `hang`, not the harness
         let owned: Vec<String> = a.iter().map(|x| x.to_string()).collect();
         if GENERATING.load(Ordering::SeqCst) && WATCHDOG_HITS.load(Ordering::SeqCst) >= 6 { return Some("skipped:watchdog".into()); }
-        return Some(on_thread_for(Duration::from_secs(25), move || { let r: Vec<&str> = owned.iter().map(|x| x.as_str()).collect(); conc::exec_conc(&r) }).unwrap_or_else(|| "hang".into()));
+        let r = on_thread_for(Duration::from_secs(25), move || { let r: Vec<&str> = owned.iter().map(|x| x.as_str()).collect(); conc::exec_conc(&r) }).unwrap_or_else(|| "hang".into());
+        // a steered session in which a thread did not come to rest costs its 3 s wait: after several of them the rest of a
+        // generated run is not executed
+        if r.starts_with("hang") { WATCHDOG_HITS.fetch_add(1, Ordering::SeqCst); }
+        return Some(r);
     }
     if op != "c12.session" && op != "c12.race" { return None; }
     if a.len() != 3 { return Some("bad-request".into()); }
